@@ -15,8 +15,7 @@ Definition underscore : N := 0%N.
 Definition print_lit (l : lit) : list tok :=
   match l with
   | LInt z => if z <? 0 then [TOp OMinus; TInt (- z)] else [TInt z]   (* n.to_string() *)
-  | LFloat id (Some k) => [TInt k]                                    (* f.to_string() = "1" for 1.0 *)
-  | LFloat id None => [TFloat id None]
+  | LFloat id i => [TFloat id i]                                      (* format!("{:?}", f): always re-lexes as the same float *)
   | LStr id => [TStr id]                                              (* escape_string inverts the lexer's unescaping *)
   | LBytes id => [TBytes id]
   | LBool true => [TKw KTrue]
@@ -120,17 +119,17 @@ Fixpoint print_ty (t : ty) : list tok :=
   match t with
   | TySimple n => [TId n]
   | TyGeneric n args => TId n :: TPu PLBracket :: sep (map print_ty args) ++ [TPu PRBracket]
-  | TyTuple ts => TId id_Tuple :: TPu PLBracket :: sep (map print_ty ts) ++ [TPu PRBracket]
+  | TyTuple ts => TPu PLParen :: sep (map print_ty ts) ++ (match ts with [_] => [TPu PComma] | _ => [] end) ++ [TPu PRParen]
   | TyFunction ps r => TPu PLParen :: sep (map print_ty ps) ++ TPu PRParen :: TPu PArrow :: print_ty r
   | TySelf => [TId 3%N]
-  | TyUnit => [TKw KNone]
+  | TyUnit => [TPu PLParen; TPu PRParen]
   end.
 
-(* format_param: is_mut is never consulted *)
+(* format_param *)
 Definition print_param (p : param) : list tok :=
-  TId (p_name p) :: TPu PColon :: print_ty (p_ty p) ++
+  (if p_mut p then [TKw KMut] else []) ++ TId (p_name p) :: TPu PColon :: print_ty (p_ty p) ++
   match p_default p with Some d => TOp OEq :: print_expr d | None => [] end.
 
-(* format_function's header: `def name(params) -> ret:`; type_params is never consulted *)
+(* format_function's header: `def name[T, ..](params) -> ret:` *)
 Definition print_fn_header (name : N) (type_params : list N) (params : list param) (ret : ty) : list tok :=
-  TId name :: TPu PLParen :: sep (map print_param params) ++ TPu PRParen :: TPu PArrow :: print_ty ret ++ [TPu PColon].
+  TId name :: (match type_params with [] => [] | _ => TPu PLBracket :: sep (map (fun n => [TId n]) type_params) ++ [TPu PRBracket] end) ++ TPu PLParen :: sep (map print_param params) ++ TPu PRParen :: TPu PArrow :: print_ty ret ++ [TPu PColon].
